@@ -71,7 +71,21 @@ static ld c13_amplification(const vf_api *P, const xdrv *D)
     expand_LU(P, &D->L, &D->U, n, n, Ld, Ud); ld amp = INFINITY;
     if (!dense_inverse(n, Ld, Li) && !dense_inverse(n, Ud, Ui)) {
         for (int j = 0; j < n; j++) for (int k = 0; k < n; k++) { ld l = cabsl(Li[(size_t)j * n + k]); if (l != 0) for (int i = 0; i < n; i++) M[(size_t)j * n + i] += cabsl(Ui[(size_t)k * n + i]) * l; }
-        ld a = dense_norm1(n, M), b = dense_norminf(n, M); amp = a > b ? a : b; if (!(amp == amp)) amp = INFINITY;
+        ld a = dense_norm1(n, M), b = dense_norminf(n, M); amp = a > b ? a : b;
+        /* each triangular stage can overflow on its own although the composed map does not (tiny pivots with u = 0: huge L^-1,
+           small U^-1), and partial sums inside a substitution are bounded by |T||T^-1| times its result: take the worst stage too */
+        ld nLi = 0, nUi = 0, cL = 0, cU = 0; ld *rs1 = calloc((size_t)n, sizeof(ld)), *rs2 = calloc((size_t)n, sizeof(ld)), *cs1 = calloc((size_t)n, sizeof(ld)), *cs2 = calloc((size_t)n, sizeof(ld));
+        for (int j = 0; j < n; j++) for (int i = 0; i < n; i++) { ld x = cabsl(Li[(size_t)j * n + i]), y = cabsl(Ui[(size_t)j * n + i]); rs1[i] += x; cs1[j] += x; rs2[i] += y; cs2[j] += y; }
+        for (int i = 0; i < n; i++) { if (rs1[i] > nLi) nLi = rs1[i]; if (cs1[i] > nLi) nLi = cs1[i]; if (rs2[i] > nUi) nUi = rs2[i]; if (cs2[i] > nUi) nUi = cs2[i]; }
+        memset(rs1, 0, sizeof(ld) * (size_t)n); memset(rs2, 0, sizeof(ld) * (size_t)n); memset(cs1, 0, sizeof(ld) * (size_t)n); memset(cs2, 0, sizeof(ld) * (size_t)n);
+        for (int j = 0; j < n; j++) for (int k = 0; k < n; k++) { ld li = cabsl(Li[(size_t)j * n + k]), ui = cabsl(Ui[(size_t)j * n + k]);
+            for (int i = 0; i < n; i++) { ld x = cabsl(Ld[(size_t)k * n + i]) * li, y = cabsl(Ud[(size_t)k * n + i]) * ui; rs1[i] += x; cs1[j] += x; rs2[i] += y; cs2[j] += y; } }
+        for (int i = 0; i < n; i++) { if (rs1[i] > cL) cL = rs1[i]; if (cs1[i] > cL) cL = cs1[i]; if (rs2[i] > cU) cU = rs2[i]; if (cs2[i] > cU) cU = cs2[i]; }
+        if (cL < 1) cL = 1; if (cU < 1) cU = 1;
+        ld st = nLi * cL; if (nUi * cU > st) st = nUi * cU; if (nLi * cU > st) st = nLi * cU; if (nUi * cL > st) st = nUi * cL;
+        if (st > amp) amp = st;
+        free(rs1); free(rs2); free(cs1); free(cs2);
+        if (!(amp == amp)) amp = INFINITY;
     }
     free(Ld); free(Ud); free(Li); free(Ui); free(M); return amp;
 }
